@@ -65,6 +65,12 @@ impl Vm {
 ///
 /// Pop the number of arguments applied to a procedure off the top of
 /// the stack. Return an error if they don't match the expected.
+/// The vector constructor as a procedure value, for code the compiler emits
+/// itself (a user program may have rebound the name `vector`).
+pub(crate) fn vector_constructor() -> VCell {
+    VCell::builtin("vector", vector::vector)
+}
+
 fn pop_argc(vm: &mut Vm, min: usize, max: Option<usize>, proc: &str) -> Result<usize, Error> {
     let argc = vm.stack.pop()?.as_argc()?;
     if argc < min || (max.is_some() && argc > max.unwrap()) {
